@@ -38,13 +38,19 @@ func init() {
 
 func vsGenC30(r *sim.Rand, tier string) *sim.Case {
 	c := &sim.Case{Cfg: map[string]int64{}}
-	conns := r.Pick(2, 2, 3, 4)
-	counters := r.Pick(1, 1, 2)
+	conns := r.Pick(2, 2, 3, 4, 4, 5)
+	counters := r.Pick(1, 1, 2, 2, 3)
 	nx := r.Pick(0, 1, 1, 2)
 	c.Cfg["conns"] = int64(conns)
 	c.Cfg["counters"] = int64(counters)
 	c.Cfg["nxkeys"] = int64(nx)
 	c.Cfg["backend"] = int64(r.Pick(0, 0, 1)) // 0 embedded (NoKV.DB), 1 raftBackend over a model store
+	// scheduling policy: uniform, or PCT (a connection can stay paused across several
+	// complete transactions of the others) with pauses biased to the oracle sites
+	c.Cfg["pct_depth"] = r.Pick64(0, 0, 1, 2, 3)
+	c.Cfg["pct_horizon"] = r.Pick64(100, 300, 600, 1200)
+	c.Cfg["pause_odds"] = r.Pick64(0, 4, 8)
+	c.Cfg["pause_budget"] = r.Pick64(0, 1, 1, 2, 3)
 	for k := 0; k < counters; k++ {
 		// initial value: absent (-1 code) or an integer
 		c.Cfg[fmt.Sprintf("init%d", k)] = r.Pick64(-1, 0, 10, 1000, -50)
@@ -53,8 +59,23 @@ func vsGenC30(r *sim.Rand, tier string) *sim.Case {
 	if tier == "thorough" {
 		per = 1 + r.Intn(8)
 	}
+	// straggler shape (1 in 3): connection 0 issues a single command while the others
+	// run several complete read-modify-write transactions around it
+	straggler := r.Intn(3) == 0
+	if straggler {
+		per = 3 + r.Intn(4)
+		c.Cfg["pct_depth"] = r.Pick64(1, 2, 2, 3)
+		c.Cfg["pause_odds"] = r.Pick64(2, 4)
+	}
+	stragglerDone := false
 	for i := 0; i < conns*per; i++ {
 		conn := int64(i % conns)
+		if straggler && conn == 0 {
+			if stragglerDone {
+				continue
+			}
+			stragglerDone = true
+		}
 		if nx > 0 && r.Intn(4) == 0 {
 			c.Ops = append(c.Ops, sim.Op{K: "setnx", A: conn, B: int64(r.Intn(nx)), C: int64(i)})
 			continue
@@ -343,6 +364,19 @@ func vsExecC30(t *testing.T, c *sim.Case) *sim.Result {
 
 		// --- scheduler and tasks
 		x.sched = sim.NewSched(sim.NewRand(c.Seed, c.Run, 1), c.Sched, res.Trace)
+		if d := int(c.CfgInt("pct_depth", 0)); d > 0 {
+			x.sched.UsePCT(d, int(c.CfgInt("pct_horizon", 300)))
+			if odds := int(c.CfgInt("pause_odds", 0)); odds > 0 {
+				x.sched.PauseOdds = odds
+				x.sched.PauseBudget = int(c.CfgInt("pause_budget", 0))
+				x.sched.PauseAt = map[string]bool{}
+				for _, site := range []string{"wm.begin.published", "wm.add.window", "wm.add.added", "orc.committs.issued", "orc.committs.begun",
+					"orc.readts.loaded", "orc.readts.clamped", "orc.readts.waited", "txn.commit.written", "orc.donecommit",
+					"be.IncrBy.pre", "be.Set.pre", "be.Get.post", "lock.pre"} {
+					x.sched.PauseAt[site] = true
+				}
+			}
+		}
 		x.installHooks()
 		shim.active = true
 		if store != nil {
